@@ -121,6 +121,39 @@ func TestVerifC41Trie(t *testing.T) {
 			fail(c, d, fmt.Sprintf("%q", ks))
 		}
 	}
+	// keys are byte strings, not text: multi-byte UTF-8 characters, their lead bytes alone, lone
+	// continuation bytes and invalid bytes, all subsets of ten such keys, queried with the keys
+	// themselves, their one-byte truncations and extensions
+	bkeys := []string{"\xc3\xa9", "\xc3", "\xc2\xb5", "\xc2\xb5s", "\xe6\x97\xa5", "\xe6\x97\xa5\xe6\x9c\xac", "\xe6", "\xff", "\x00", "a\x80"}
+	var bqueries []string
+	for _, k := range bkeys {
+		bqueries = append(bqueries, k, k+"\xa9", k+"z")
+		if len(k) > 1 {
+			bqueries = append(bqueries, k[:len(k)-1], k[1:])
+		}
+	}
+	bsets := 0
+	for mask := 0; mask < 1<<len(bkeys); mask += step {
+		var ks []string
+		for i, k := range bkeys {
+			if mask>>i&1 == 1 {
+				ks = append(ks, k)
+			}
+		}
+		rnd.Shuffle(len(ks), func(i, j int) { ks[i], ks[j] = ks[j], ks[i] })
+		tr := new(Trie[int])
+		model := map[string]int{}
+		for i, k := range ks {
+			tr.Insert(k, i+1)
+			model[k] = i + 1
+		}
+		bsets++
+		for _, q := range bqueries {
+			evals++
+			c, d := c41trieCheck(tr, model, q)
+			fail(c, d, fmt.Sprintf("%q", ks))
+		}
+	}
 	exh := sets
 	// growth: branching key sets large enough to pass 255 nodes (and, thorough, 65535 nodes)
 	big := 12
@@ -178,5 +211,5 @@ func TestVerifC41Trie(t *testing.T) {
 	for len(samples) < 3 {
 		samples = append(samples, "")
 	}
-	fmt.Printf("BOUNDED: {\"evaluations\":%d,\"distinct\":%d,\"rule\":\"%s key sets over the 13 keys of length <=2 on {a,b,q} (shuffled insertion order, one key inserted twice) x all %d queries of length <=3 on {a,b,q,0xff} (%d sets), plus %d seeded random branching key sets of 150..1050 keys (thorough: also 40000) over 9 byte values that force the 8->16(->32)-bit index growth, re-checked after every 97th insertion: Prefixes(q) lists exactly the inserted keys prefixing q, shortest first, each with its latest value; Get(q) returns the longest, or (\\\"\\\",0) when there is none; distinct_nontrivial counts the distinct key sets in which one key is a proper prefix of another\",\"exhaustive\":%v,\"bound\":\"keys of length <=2 over 3 letters; growth part sampled\",\"samples\":[%q,%q,%q]}\n", evals, nontrivial, map[bool]string{true: "all 8192", false: "every third of the 8192"}[thorough], len(queries), exh, big, thorough, samples[0], samples[1], samples[2])
+	fmt.Printf("BOUNDED: {\"evaluations\":%d,\"distinct\":%d,\"rule\":\"%s key sets over the 13 keys of length <=2 on {a,b,q} (shuffled insertion order, one key inserted twice) x all %d queries of length <=3 on {a,b,q,0xff} (%d sets), plus subsets of ten byte-string keys that are not ASCII text (multi-byte UTF-8 characters, bare lead and continuation bytes, 0x00, 0xff) with their truncations and extensions as queries, plus %d seeded random branching key sets of 150..1050 keys (thorough: also 40000) over 9 byte values that force the 8->16(->32)-bit index growth, re-checked after every 97th insertion: Prefixes(q) lists exactly the inserted keys prefixing q, shortest first, each with its latest value; Get(q) returns the longest, or (\\\"\\\",0) when there is none; distinct_nontrivial counts the distinct key sets in which one key is a proper prefix of another\",\"exhaustive\":%v,\"bound\":\"keys of length <=2 over 3 letters; growth part sampled\",\"samples\":[%q,%q,%q]}\n", evals, nontrivial, map[bool]string{true: "all 8192", false: "every third of the 8192"}[thorough], len(queries), exh, big, thorough, samples[0], samples[1], samples[2])
 }
